@@ -88,12 +88,15 @@ theorem loopCalls_m (o : Ops α) (off : α) (dashes : List α) (m : Mat α) (sty
     · rfl
     · exact ih _ k hk
 
+/-- the renderer calls of `DrawPath(x, y, ps…)` in context `c` -/
+def pathCalls (o : Ops α) (c : Ctx α) (x y : α) (ps : List (PathRef α)) : List (Call α) :=
+  if !c.st.style.hasFill && !c.st.style.hasStroke o then []
+  else loopCalls o c.st.style.dashOff c.st.style.dashes (c.baseMatrix o x y) c.st.style ps
+
 /-- the renderer calls made by one history operation in context `c` -/
 def drawCalls (o : Ops α) (op : Op α) (c : Ctx α) : List (Call α) :=
   match op with
-  | .drawPath x y ps =>
-    if !c.st.style.hasFill && !c.st.style.hasStroke o then []
-    else loopCalls o c.st.style.dashOff c.st.style.dashes (c.baseMatrix o x y) c.st.style ps
+  | .drawPath x y ps => pathCalls o c x y ps
   | .drawText x y t =>
     if t.empty then [] else
       [⟨.text t, (fun m => if c.st.cs.flipX then o.reflectX m else m)
@@ -102,21 +105,50 @@ def drawCalls (o : Ops α) (op : Op α) (c : Ctx α) : List (Call α) :=
     if o.beq i.w o.zero && o.beq i.h o.zero then [] else
       [⟨.image i, imageFlip o c.st.cs (o.scale (c.baseMatrix o x y) (o.div o.one res) (o.div o.one res)) i.w i.h⟩]
   | .fitImage i r fit => (step o (.fitImage i r fit) { c with emitted := [] }).emitted
+  | .fill p => pathCalls o (c.withStyle { c.st.style with stroke := Paint.none }) o.zero o.zero [p]
+  | .stroke p => pathCalls o (c.withStyle { c.st.style with fill := Paint.none }) o.zero o.zero [p]
+  | .fillStroke p => pathCalls o c o.zero o.zero [p]
   | _ => []
 
 def _root_.Canvas.C15.Op.isDraw : Op α → Bool
-  | .drawPath .. => true | .drawText .. => true | .drawImage .. => true | .fitImage .. => true | _ => false
+  | .drawPath .. => true | .drawText .. => true | .drawImage .. => true | .fitImage .. => true
+  | .fill .. => true | .stroke .. => true | .fillStroke .. => true | _ => false
 def _root_.Canvas.C15.Op.isCanvasOp : Op α → Bool
-  | .cvTransform .. => true | .cvClip .. => true | .cvFit .. => true | .cvReset => true | _ => false
+  | .cvTransform .. => true | .cvClip .. => true | .cvFit .. => true | .cvReset => true | .cvNest .. => true | _ => false
 def _root_.Canvas.C15.Op.isStack : Op α → Bool
   | .push => true | .pop => true | _ => false
 
-theorem drawPath_eq (o : Ops α) (c : Ctx α) (x y : α) (ps : List (PathRef α)) :
-    c.drawPath o x y ps = emitAll c (drawCalls o (.drawPath x y ps) c) := by
-  simp only [Ctx.drawPath, drawCalls]
+theorem drawPath_eq' (o : Ops α) (c : Ctx α) (x y : α) (ps : List (PathRef α)) :
+    c.drawPath o x y ps = emitAll c (pathCalls o c x y ps) := by
+  simp only [Ctx.drawPath, pathCalls]
   split
   · rfl
   · exact drawPathLoop_eq ..
+
+theorem drawPath_eq (o : Ops α) (c : Ctx α) (x y : α) (ps : List (PathRef α)) :
+    c.drawPath o x y ps = emitAll c (drawCalls o (.drawPath x y ps) c) := drawPath_eq' o c x y ps
+
+theorem emitAll_withStyle (c : Ctx α) (s : Style α) (ks : List (Call α)) :
+    emitAll (c.withStyle s) ks = (emitAll c ks).withStyle s := by
+  induction ks generalizing c with
+  | nil => rfl
+  | cons k ks ih => exact ih (c.emit k)
+
+/-- Fill()/Stroke(): the calls are those of DrawPath under the modified style; the style is back afterwards -/
+theorem drawWith_eq (o : Ops α) (c : Ctx α) (s : Style α) (p : PathRef α) :
+    c.drawWith o s p = emitAll c (pathCalls o (c.withStyle s) o.zero o.zero [p]) := by
+  unfold Ctx.drawWith
+  rw [drawPath_eq', emitAll_withStyle]
+  generalize pathCalls o (c.withStyle s) o.zero o.zero [p] = ks
+  have h := emitAll_st c ks
+  show ({ (emitAll c ks) with st := { ((emitAll c ks).withStyle s).st with style := c.st.style } } : Ctx α) = emitAll c ks
+  simp only [Ctx.withStyle]
+  rw [h]
+  generalize hx : emitAll c ks = x at h
+  obtain ⟨st, stack, cv, emitted⟩ := x
+  simp only at h
+  subst h
+  rfl
 
 theorem drawText_eq (o : Ops α) (c : Ctx α) (x y : α) (t : TextRef α) :
     c.drawText o x y t = emitAll c (drawCalls o (.drawText x y t) c) := by
@@ -143,6 +175,9 @@ theorem step_draw (o : Ops α) (op : Op α) (c : Ctx α) (h : op.isDraw = true) 
   · exact drawText_eq ..
   · exact drawImage_eq ..
   · exact fitImage_eq ..
+  · exact drawWith_eq ..
+  · exact drawWith_eq ..
+  · exact drawPath_eq' ..
 
 /-- the Context state (style, view, coordinate view and system) is not touched by draws and canvas operations -/
 theorem step_st_of_draw (o : Ops α) (op : Op α) (c : Ctx α) (h : op.isDraw = true ∨ op.isCanvasOp = true) :
